@@ -643,6 +643,11 @@ func UploadFolderHandler(rwc io.ReadWriter, fullPath string, fileTransfer *FileT
 			return err
 		}
 
+		// As in the upload requests: an item cannot take the name of another item's fork side file or partial upload.
+		if ReservedFileName(fu.FormattedPath()) {
+			return fmt.Errorf("folder upload item with a reserved name: %s", fu.FormattedPath())
+		}
+
 		if fu.IsFolder == [2]byte{0, 1} {
 			if _, err := os.Stat(filepath.Join(fullPath, fu.FormattedPath())); os.IsNotExist(err) {
 				if err := os.Mkdir(filepath.Join(fullPath, fu.FormattedPath()), 0777); err != nil {
